@@ -28,7 +28,18 @@ func ruleTimestamp(c *RC) *RuleResult {
 		return r
 	}
 	wantA := "cfg.TimestampIncrement+ctx.lastBlockTimestamp"
-	exits := c.A.walkFuncOpt(b, newState(), false, true)
+	truncRe := regexp.MustCompile(`^mul\(cfg\.TimestampIncrement,div\(time\.Time\.UnixNano\(l:if:Timer\.Now:\d+\),cfg\.TimestampIncrement\)\)$`)
+	isClock := func(t *Term) bool {
+		if t == nil {
+			return false
+		}
+		if t.K == KLocal && strings.HasPrefix(t.Name, "ret:") {
+			return true
+		}
+		return truncRe.MatchString(nfString(t))
+	}
+	directTrunc := false
+	exits := c.exitsFrom(b, newState(), true)
 	n := 0
 	var truncFn string
 	for _, e := range exits {
@@ -44,7 +55,10 @@ func ruleTimestamp(c *RC) *RuleResult {
 		}
 		// identify A and B on this path
 		isA := nfString(v) == wantA
-		isB := v.K == KLocal && strings.HasPrefix(v.Name, "ret:")
+		isB := isClock(v)
+		if isB && v.K != KLocal {
+			directTrunc = true
+		}
 		// find the comparison between A and B on the trail
 		var cmp *Lit
 		for i := range e.TrailL {
@@ -53,7 +67,7 @@ func ruleTimestamp(c *RC) *RuleResult {
 				continue
 			}
 			a, bb := l.A.A, l.A.B
-			if (nfString(a) == wantA && bb.K == KLocal && strings.HasPrefix(bb.Name, "ret:")) || (nfString(bb) == wantA && a.K == KLocal && strings.HasPrefix(a.Name, "ret:")) {
+			if (nfString(a) == wantA && isClock(bb)) || (nfString(bb) == wantA && isClock(a)) {
 				cmp = &e.TrailL[i]
 			}
 		}
@@ -91,7 +105,9 @@ func ruleTimestamp(c *RC) *RuleResult {
 	// truncation function normal form
 	r.Sites++
 	tf := c.Prog.fn(truncFn)
-	if tf == nil {
+	if tf == nil && directTrunc {
+		r.ok(b.Name + ": the clock value is (UnixNano(Timer.Now()) div TimestampIncrement) · TimestampIncrement (inline)")
+	} else if tf == nil {
 		r.fail(b.Name+"/trunc-fn", c.Prog.Pos(b.Decl), "the clock value compared in the builder is not the result of a truncation function (got "+truncFn+")")
 	} else {
 		t, ok := c.singleRet(tf)
@@ -686,7 +702,7 @@ func ruleResponder(c *RC) *RuleResult {
 			st.F.add(l)
 		}
 		bad := ""
-		for _, e := range c.A.walkFunc(h, st, false) {
+		for _, e := range c.exitsFrom(h, st, false) {
 			okk := false
 			for _, f := range rs {
 				if e.Events["fn:"+f.Name] {
